@@ -1,6 +1,6 @@
 import PbVerif.Lemmas.FastInit
 /-
-(a, repaired) the walk of fixes/needsinitcheck-cycle.diff is exact on ALL schemas and after ANY
+(a) the walk of the current code (/repo 78c9443 = fixes/needsinitcheck-cycle.diff) is exact on ALL schemas and after ANY
 sequence of queries: every entry of the global map equals `Reaches`.  Core-only.
 -/
 namespace FastInit
@@ -9,7 +9,7 @@ open Pb
 @[simp] theorem BCache.set_same (g : BCache) (i : Nat) (b : Bool) : g.set i b i = some b := by simp [BCache.set]
 theorem BCache.set_other (g : BCache) {i j : Nat} (b : Bool) (h : j ≠ i) : g.set i b j = g j := by simp [BCache.set, h]
 
-/-- invariant of the repaired global map: every entry is exact -/
+/-- invariant of the global map: every entry is exact -/
 def Exact (S : Schema) (xr : Nat → Bool) (g : BCache) : Prop := ∀ j b, g j = some b → (b = true ↔ Reaches S xr j)
 
 theorem Exact.set {S : Schema} {xr : Nat → Bool} {g : BCache} (h : Exact S xr g) (i : Nat) (b : Bool)
@@ -147,7 +147,7 @@ theorem walk_post (S : Schema) (xr : Nat → Bool) : ∀ (fuel : Nat) (g : BCach
               exact ⟨by simpa using ho, d2⟩
             · exact d3 j hj (by simp [hji, hn])
 
-/-- one repaired query keeps the map exact and answers exactly -/
+/-- one query keeps the map exact and answers exactly -/
 theorem queryFixed_exact (S : Schema) (xr : Nat → Bool) (g : BCache) (i : Nat) (r : Bool) (g' : BCache)
     (hg : Exact S xr g) (h : queryFixed S xr g i = some (r, g')) :
     Exact S xr g' ∧ (r = true ↔ Reaches S xr i) := by
@@ -223,7 +223,7 @@ theorem queryFixed_stores (S : Schema) (xr : Nat → Bool) (g : BCache) (i : Nat
       · simp [hi]
       · rw [hnone] at hi; cases hi
 
-/-! ### the repaired walk never runs out of fuel -/
+/-! ### the walk never runs out of fuel -/
 
 def unseenV (S : Schema) (vis : List Nat) : Nat :=
   ((List.range S.msgs.length).filter fun j => !vis.contains j).length
